@@ -75,6 +75,18 @@ fn main() {
                 pb.set_message(format!("cell #{id}"));
                 pb.inc(1);
 
+                // verification hook: log the node id set of every job of every level
+                #[cfg(feature = "verif")]
+                if let Some(path) = std::env::var_os("TOOLBOX_RS_VERIF_JOBLOG") {
+                    use std::io::Write;
+                    let line = format!(
+                        "{current_level} {id} {}\n",
+                        job.1.iter().map(|i| i.to_string()).collect::<Vec<_>>().join(" ")
+                    );
+                    let file = std::fs::OpenOptions::new().create(true).append(true).open(path);
+                    let _ = file.and_then(|mut f| f.write_all(line.as_bytes()));
+                }
+
                 // we use the count of coordinates as an upper bound to the cut size
                 let upper_bound = Arc::new(AtomicI32::new(job.1.len().try_into().unwrap()));
                 // run inertial flow on all four axes
